@@ -353,7 +353,7 @@ func iRegexpSplit(m *machine, fr *frame, args []value) value {
 	if m.branch(mkStrEq(s, mkStr(""))) {
 		return []value{""}
 	}
-	for k := 0; k <= m.w.cfg.SplitMax; k++ {
+	for k := 0; k <= m.splitMax; k++ {
 		var parts []*Term
 		var words []*Term
 		var conds []*Term
@@ -396,7 +396,7 @@ func iRegexpSplit(m *machine, fr *frame, args []value) value {
 			return out
 		}
 	}
-	panic(cut{fmt.Sprintf("regexp.Split into more than %d parts (outside bound)", m.w.cfg.SplitMax+1)})
+	panic(cut{fmt.Sprintf("regexp.Split into more than %d parts (outside bound)", m.splitMax+1)})
 }
 
 // splitAtFirstOf decomposes r = g2 ++ g3 where g2 contains none of the bytes
